@@ -39,7 +39,7 @@ func c19KindMatchesForm(p *Prog) *RuleResult {
 			return ""
 		}
 		name := calleeFullName(c)
-		if strings.HasSuffix(name, "js_printer.(*printer).print") && len(c.Call.Args) == 2 {
+		if strings.HasSuffix(name, "js_printer.printer).print") && len(c.Call.Args) == 2 {
 			if s, ok := constString(c.Call.Args[1]); ok {
 				switch {
 				case strings.Contains(s, "require.resolve"):
